@@ -36,14 +36,21 @@ int main(int argc, char **argv) {
     snprintf(buf, sizeof buf, "PRAGMA journal_size_limit=%s", argv[6]);
     run(db, buf, 1);
   }
-  run(db, "BEGIN", 1);
+  /* lines that start with '@' run before the transaction begins (ATTACH) */
   FILE *f = fopen(argv[4], "r");
   if (!f) return 3;
   static char line[1 << 16];
   while (fgets(line, sizeof line, f)) {
     size_t n = strlen(line);
     while (n && (line[n - 1] == '\n' || line[n - 1] == '\r')) line[--n] = 0;
-    if (n) run(db, line, 0);
+    if (n && line[0] == '@') run(db, line + 1, 1);
+  }
+  rewind(f);
+  run(db, "BEGIN", 1);
+  while (fgets(line, sizeof line, f)) {
+    size_t n = strlen(line);
+    while (n && (line[n - 1] == '\n' || line[n - 1] == '\r')) line[--n] = 0;
+    if (n && line[0] != '@') run(db, line, 0);
   }
   fclose(f);
   run(db, "COMMIT", 1);
